@@ -17,7 +17,7 @@ import cmath, functools, itertools, math, time
 import numpy as np
 
 from vlib.core import PropertyCheck
-from props.c01_gatedoc import doc_matrix
+from props.c01_gatedoc import doc_matrix, ctrl_value
 
 PI8 = math.pi / 8
 ZETA = [cmath.exp(1j * PI8 * j) for j in range(8)]
@@ -93,32 +93,57 @@ def close(a, b, tol=1e-12):
 
 # ------------------------------------------------------------------------------------------------
 # harness gates
-class G:
-    """library gate (name, targets, controls, angle = p8*pi/8 exact, or float `val`) or user gate `user`."""
+# gate classes exported by operations/gateclass.py that build a library gate: library name -> class names
+CLASSES = {"X": ["X"], "Y": ["Y"], "Z": ["Z"], "RX": ["RX"], "RY": ["RY"], "RZ": ["RZ"], "SNOT": ["H", "SNOT"],
+           "SQRTNOT": ["SQRTNOT"], "S": ["S"], "T": ["T"], "R": ["R"], "QASMU": ["QASMU"], "SWAP": ["SWAP"],
+           "ISWAP": ["ISWAP"], "SQRTSWAP": ["SQRTSWAP"], "SQRTISWAP": ["SQRTISWAP"], "SWAPalpha": ["SWAPALPHA"],
+           "MS": ["MS"], "TOFFOLI": ["TOFFOLI"], "FREDKIN": ["FREDKIN"], "BERKELEY": ["BERKELEY"], "CNOT": ["CNOT", "CX"],
+           "CSIGN": ["CSIGN", "CZ"], "CZ": ["CZ", "CSIGN"], "CPHASE": ["CPHASE"], "CRX": ["CRX"], "CRY": ["CRY"],
+           "CRZ": ["CRZ"], "CY": ["CY"], "CS": ["CS"], "CT": ["CT"], "RZX": ["RZX"]}
+PARTIAL = {"CRX", "CRY", "CRZ", "CY", "CX", "CT", "CS"}          # functools.partial(_OneControlledGate, target_gate=..)
+CTRL_TARGETS = ["X", "Y", "Z", "S", "T", "SNOT", "SQRTNOT", "RX", "RY", "RZ"]     # target_gate of a generic ControlledGate
 
-    def __init__(self, name, t, c, p8=0, val=None, user=False, cn=None, arg=None):
+
+def objname(via):
+    """the `.name` attribute of an object built through the class `via` ("the class name" — Gate.__init__)"""
+    if via in PARTIAL:
+        return "_OneControlledGate"
+    return "H" if via == "SNOT" else via
+
+
+class G:
+    """library gate (name, targets, controls, angle = p8*pi/8 exact, or float `val`) or user gate `user`.
+    `via`: None = added by name (`add_gate("CNOT", ...)`), a class name of operations/gateclass.py = the gate OBJECT
+    `Class(...)` handed to add_gate, "ControlledGate" = the generic `ControlledGate(controls, targets, control_value=cv,
+    target_gate=<class of name>)` (then `name` is the target gate's name and `c` its controls)."""
+
+    def __init__(self, name, t, c, p8=0, val=None, user=False, cn=None, arg=None, via=None, cv=None):
         self.name, self.t, self.c, self.p8, self.val, self.user = name, list(t), list(c), p8, val, user
         self.cn = (len(self.c) == 0) if cn is None else cn     # gate.controls is None
         self.arg = arg                                           # arg_value for user functions (int)
+        self.via, self.cv = via, cv
 
     def exact(self):
-        return self.val is None
+        return self.val is None and self.via != "ControlledGate"
 
     def enc(self):
         d = lambda l: ".".join(map(str, l)) if l else "-"
-        return f"{self.name}/{d(self.t)}/{d(self.c)}/-1,0,1,{self.p8}/{1 if self.cn else 0}/{'-' if self.arg is None else self.arg}"
+        base = f"{self.name}/{d(self.t)}/{d(self.c)}/-1,0,1,{self.p8}/{1 if self.cn else 0}/{'-' if self.arg is None else self.arg}"
+        return base + ("/" + objname(self.via) if self.via else "")
 
     def js(self):
-        return [self.name, self.t, self.c, self.p8 if self.val is None else self.val, self.user, self.cn, self.arg]
+        return [self.name, self.t, self.c, self.p8 if self.val is None else self.val, self.user, self.cn, self.arg,
+                self.via, self.cv]
 
     @staticmethod
     def from_js(j):
-        name, t, c, a, user, cn, arg = j
+        name, t, c, a, user, cn, arg = j[:7]
+        via, cv = (j[7], j[8]) if len(j) > 7 else (None, None)
         if isinstance(a, float):
-            return G(name, t, c, val=a, user=user, cn=cn, arg=arg)
+            return G(name, t, c, val=a, user=user, cn=cn, arg=arg, via=via, cv=cv)
         if isinstance(a, (list, tuple)):
-            return G(name, t, c, val=tuple(a), user=user, cn=cn, arg=arg)
-        return G(name, t, c, p8=a, user=user, cn=cn, arg=arg)
+            return G(name, t, c, val=tuple(a), user=user, cn=cn, arg=arg, via=via, cv=cv)
+        return G(name, t, c, p8=a, user=user, cn=cn, arg=arg, via=via, cv=cv)
 
     def arg_value(self):
         if self.user:
@@ -131,6 +156,38 @@ class G:
 
     def qubits(self):
         return self.t if self.cn else self.c + self.t
+
+    def lookup_name(self):
+        """the key `_get_gate_unitary` looks up in user_gates"""
+        return objname(self.via) if self.via else self.name
+
+    def as_object(self, rng):
+        """the same gate as an object built through one of its exported classes (None if there is none)"""
+        if self.user or self.via or self.name not in CLASSES:
+            return None
+        via = rng.choice(CLASSES[self.name])
+        if self.name in ("TOFFOLI", "FREDKIN"):      # TOFFOLI(targets=[c1, c2, t]): no `controls`
+            return G(self.name, self.c + self.t, [], p8=self.p8, val=self.val, cn=True, via=via)
+        return G(self.name, self.t, self.c, p8=self.p8, val=self.val, cn=self.cn, via=via)
+
+    def make_object(self):
+        """the gate object `Class(...)`"""
+        from qutip_qip.operations import gateclass as ops
+        av = self.arg_value()
+        if self.via == "ControlledGate":
+            kw = {} if av is None else {"arg_value": av}
+            tg = getattr(ops, "H" if self.name == "SNOT" else self.name)
+            return ops.ControlledGate(controls=list(self.c), targets=list(self.t), control_value=self.cv, target_gate=tg, **kw)
+        cls = getattr(ops, self.via)
+        kw = {} if av is None else {"arg_value": av}
+        if self.c:
+            return cls(controls=list(self.c), targets=list(self.t), **kw)
+        return cls(targets=list(self.t), **kw)
+
+
+def maybe_object(rng, g, p=0.5):
+    o = g.as_object(rng) if rng.random() < p else None
+    return o if o is not None else g
 
 
 class UG:
@@ -175,15 +232,22 @@ def build_circuit(N, gates, ugs=()):
     from qutip_qip.circuit import QubitCircuit
     qc = QubitCircuit(N, user_gates={u.name: u.pyobj() for u in ugs}) if ugs else QubitCircuit(N)
     for g in gates:
-        kw = {}
-        av = g.arg_value()
-        if av is not None:
-            kw["arg_value"] = av
-        if g.cn:
-            qc.add_gate(g.name, targets=(g.t if g.t else None), **kw)
-        else:
-            qc.add_gate(g.name, targets=(g.t if g.t else None), controls=g.c, **kw)
+        add_to_circuit(qc, g)
     return qc
+
+
+def add_to_circuit(qc, g):
+    if g.via:
+        qc.add_gate(g.make_object())
+        return
+    kw = {}
+    av = g.arg_value()
+    if av is not None:
+        kw["arg_value"] = av
+    if g.cn:
+        qc.add_gate(g.name, targets=(g.t if g.t else None), **kw)
+    else:
+        qc.add_gate(g.name, targets=(g.t if g.t else None), controls=g.c, **kw)
 
 
 def build_circuit_meas(N, gates, ugs, meas):
@@ -196,15 +260,7 @@ def build_circuit_meas(N, gates, ugs, meas):
         for _ in range(meas.count(i)):
             qc.add_measurement("M", targets=[i % N], classical_store=0)
         if i < len(gates):
-            g = gates[i]
-            kw = {}
-            av = g.arg_value()
-            if av is not None:
-                kw["arg_value"] = av
-            if g.cn:
-                qc.add_gate(g.name, targets=(g.t if g.t else None), **kw)
-            else:
-                qc.add_gate(g.name, targets=(g.t if g.t else None), controls=g.c, **kw)
+            add_to_circuit(qc, gates[i])
     return qc
 
 
@@ -251,10 +307,12 @@ def compact_matrix(g, utab=None):
     operator, f() or f(arg_value)), evaluated by the harness itself; for a library gate the DOCUMENTED matrix
     (props/c01_gatedoc.py, transcribed from the docstrings) — never a matrix computed by qutip_qip, and name,
     argument and placement are the harness's own, not read back from the circuit object"""
-    if utab and g.name in utab:
-        u = utab[g.name]
+    if utab and g.lookup_name() in utab:
+        u = utab[g.lookup_name()]
         M = val_mat(u.mat)
         return g.arg * M if u.kind == "fn1" else M
+    if g.via == "ControlledGate":
+        return ctrl_value(doc_matrix(g.name, g.arg_value()), len(g.c), g.cv)
     return doc_matrix(g.name, g.arg_value())
 
 
@@ -326,7 +384,9 @@ def library_catalogue():
     return out
 
 
-def placed_gates(N, rot_angles=True):
+def placed_gates(N, rot_angles=True, objects=False):
+    """every placed exact library gate on N qubits, added by name; with `objects` also as an object of every exported
+    gate class that builds it"""
     out = []
     for name, p8 in library_catalogue():
         if p8 not in (0, 2) and not rot_angles:
@@ -335,10 +395,37 @@ def placed_gates(N, rot_angles=True):
         if nc + nt > N:
             continue
         for qs in itertools.permutations(range(N), nc + nt):
-            out.append(G(name, qs[nc:], qs[:nc], p8=p8))
+            g = G(name, qs[nc:], qs[:nc], p8=p8)
+            out.append(g)
+            if objects:
+                for via in CLASSES.get(name, []):
+                    if name in ("TOFFOLI", "FREDKIN"):
+                        out.append(G(name, list(qs), [], p8=p8, cn=True, via=via))
+                    else:
+                        out.append(G(name, qs[nc:], qs[:nc], p8=p8, via=via))
     for p8 in (3, -4, 16, -19):
         out.append(G("GLOBALPHASE", [], [], p8=p8))
     return out
+
+
+def partial_class_objects(N=2):
+    """objects of the classes that are functools.partial(_OneControlledGate, ...): they all carry the same `.name`;
+    the rotations with one common angle (pi/4), every placement on N qubits"""
+    out = []
+    for name in ["CNOT", "CY", "CS", "CT", "CRX", "CRY", "CRZ"]:
+        via = "CX" if name == "CNOT" else name
+        for qs in itertools.permutations(range(N), 2):
+            out.append(G(name, [qs[1]], [qs[0]], p8=(2 if name in ROT else 0), via=via))
+    return out
+
+
+def random_controlled_gate(rng, N):
+    """a generic ControlledGate object: 1-2 controls, any control_value, a one-qubit target gate (oracle only)"""
+    nc = rng.choice([1, 1, 2]) if N >= 3 else 1
+    qs = rng.sample(range(N), nc + 1)
+    name = rng.choice(CTRL_TARGETS)
+    val = float_angle(rng) if name in ROT else None
+    return G(name, [qs[nc]], qs[:nc], val=val, cn=False, via="ControlledGate", cv=rng.randrange(2 ** nc))
 
 
 def exact_angle(rng):
@@ -376,10 +463,12 @@ def random_exact_gate(rng, N):
             break
     qs = rng.sample(range(N), nc + nt)
     p8 = exact_angle(rng) if name in ROT else 0
-    return G(name, qs[nc:], qs[:nc], p8=p8)
+    return maybe_object(rng, G(name, qs[nc:], qs[:nc], p8=p8), 0.4)
 
 
 def random_float_gate(rng, N):
+    if N >= 2 and rng.random() < 0.12:
+        return random_controlled_gate(rng, N)
     while True:
         name = rng.choice(ROT + FLOAT_ONLY + ["GLOBALPHASE"])
         nc, nt = SHAPE[name]
@@ -393,7 +482,7 @@ def random_float_gate(rng, N):
         val = (ang(), ang(), ang())
     else:
         val = ang()
-    return G(name, qs[nc:], qs[:nc], val=val)
+    return maybe_object(rng, G(name, qs[nc:], qs[:nc], val=val), 0.4)
 
 
 NARGS = {"R": 2, "MS": 2, "QASMU": 3}
@@ -445,7 +534,7 @@ def random_gate_list(rng, N, L, ugs):
         else:
             g = random_exact_gate(rng, N)
             # a library name shadowed by the user table resolves to the user matrix: keep arities consistent
-            sh = [u for u in ugs if u.name == g.name]
+            sh = [u for u in ugs if u.name in (g.name, g.lookup_name())]
             if sh:
                 continue
             gates.append(g)
@@ -516,7 +605,8 @@ class C01(PropertyCheck):
                   "ignore_measurement drop exactly the measurements, without it a measurement is refused. An unsorted set order "
                   "breaks the compact product (counter-example proved in the kernel; repaired in /repo by cbd9b48). The model is "
                   "tied to the code by an exact correspondence (amplitudes in Z[zeta16][1/2]) over every placed library gate on 1-3 "
-                  "qubits (angles incl. 2pi and -5pi/2), pairs of placed gates, seeded random circuits up to 6 qubits with user "
+                  "qubits (angles incl. 2pi and -5pi/2; added by name and as objects of every exported gate class), pairs of placed "
+                  "gates incl. all pairs of same-name objects of the partial(_OneControlledGate) classes, seeded random circuits up to 6 qubits with user "
                   "gates and angles up to +-6pi, circuits with measurements, and 9-11(12) qubit compact products.")
     level_note = ("The theorems describe /repo as repaired by the fix commits cbd9b48 (sorted merged indices), 26a687b (scalar conjugate "
                   "for GLOBALPHASE in density-matrix mode) and c6903aa (state getter). Trusted: Lean kernel; the meaning of np.einsum / "
@@ -537,7 +627,8 @@ class C01(PropertyCheck):
     ]
     assumptions = ["register of qubits (dims = [2]*N); measurement-free circuits without classical controls "
                    "(measurements only as elements dropped / refused by propagators)"]
-    rule = ("case = (N, gate list with placements and exact angles, user-gate table, exact input state, evaluation path); "
+    rule = ("case = (N, gate list with placements and exact angles — each gate added by name or as an object of an exported "
+            "gate class —, user-gate table, exact input state, evaluation path); "
             "non-trivial = at least one gate that is not placed on the leading qubits in natural order, or >= 2 gates; "
             "parametric (float-angle) circuits (angles uniform in (-7,7) and (-20,20) and boundary values 0, +-pi, +-2pi, "
             "+-4pi ...) are compared with the dense product of the documented matrices only and tagged oracle-only")
@@ -576,6 +667,12 @@ class C01(PropertyCheck):
                     warnings.simplefilter("ignore")
                     return CircuitSimulator(qc, precompute_unitary=True).run(qket).get_final_states(0).full().ravel()
             out["ketpre"] = guarded(pre)
+        if want("ket2nd"):
+            def second():
+                sim = CircuitSimulator(qc)
+                sim.run(qutip.Qobj(val_vec(ket)[::-1].reshape(-1, 1).copy(), dims=[[2] * N, [1] * N]))
+                return sim.run(qket).get_final_states(0).full().ravel()
+            out["ket2nd"] = guarded(second)
         if want("ket_steps"):
             out["ket_steps"] = guarded(lambda: [s.ravel() for s in steps("state_vector_simulator", qket)])
         if want("oper"):
@@ -618,6 +715,7 @@ class C01(PropertyCheck):
         allp = [
             ("ket", f"ket {base} state={enc_vec(ket)} trace=0"),
             ("ketpre", f"ket {base} state={enc_vec(ket)} trace=0"),      # precompute_unitary=True: a warning, same run
+            ("ket2nd", f"ket {base} state={enc_vec(ket)} trace=0"),      # second run on one CircuitSimulator: no history
             ("ket_steps", f"ket {base} state={enc_vec(ket)} trace=1"),
             ("oper", f"oper {base} state={enc_mat(oper)} trace=0"),
             ("oper_steps", f"oper {base} state={enc_mat(oper)} trace=1"),
@@ -646,7 +744,7 @@ class C01(PropertyCheck):
         if not ans.startswith("ok"):
             return ans.replace("embed-index", "index"), None     # both are IndexError
         body = ans[3:].strip()
-        if name in ("ket", "ketpre"):
+        if name in ("ket", "ketpre", "ket2nd"):
             return "ok", parse_vec(body)
         if name == "ket_steps":
             return "ok", [parse_vec(b) for b in body.split("#")] if body else []
@@ -779,7 +877,7 @@ class C01(PropertyCheck):
         gates = []
         for q in range(N):
             name = rng.choice(["X", "Y", "T", "S", "SNOT", "SQRTNOT", "RX", "RY"])
-            gates.append(G(name, [q], [], p8=2 * rng.randint(-3, 3) if name in ROT else 0))
+            gates.append(maybe_object(rng, G(name, [q], [], p8=2 * rng.randint(-3, 3) if name in ROT else 0), 0.3))
         rng.shuffle(gates)
         for _ in range(rng.randint(1, 3)):
             name = rng.choice(["CNOT", "CSIGN", "SWAP", "ISWAP", "BERKELEY", "SQRTSWAP", "TOFFOLI", "FREDKIN", "CT"])
@@ -788,7 +886,7 @@ class C01(PropertyCheck):
             qs = rng.sample(range(N), nc + nt)
             if rng.random() < 0.7:                 # descending, high indices: the set-order-sensitive shape
                 qs = sorted(rng.sample(hi, min(len(hi), nc + nt)) if len(hi) >= nc + nt else qs, reverse=True)
-            gates.append(G(name, qs[nc:], qs[:nc]))
+            gates.append(maybe_object(rng, G(name, qs[nc:], qs[:nc]), 0.3))
         return gates
 
     # --------------------------------------------------------------------------------------------
@@ -939,26 +1037,36 @@ class C01(PropertyCheck):
         rng = ctx.rng
         t0 = time.time()
         # 1. exhaustive: every placed library gate on 3 qubits (and 1, 2 qubits)
-        singles = placed_gates(3)
+        singles = placed_gates(3, objects=True)
         batch = []
+        tag = lambda g: "object" if g.via else "by-name"
         for N in (1, 2):
-            for g in placed_gates(N, rot_angles=False):
-                batch.append((N, [g], [], ["single", f"N={N}"], None))
+            for g in placed_gates(N, rot_angles=False, objects=True):
+                batch.append((N, [g], [], ["single", f"N={N}", tag(g)], None))
         for g in singles:
-            batch.append((3, [g], [], ["single", "N=3"], None))
+            batch.append((3, [g], [], ["single", "N=3", tag(g)], None))
         self._exact_batch(ctx, res, batch)
-        res.notes.append(f"exhaustive: every placed exact library gate on 1, 2 and 3 qubits ({len(singles)} on 3 qubits), all paths")
+        res.notes.append(f"exhaustive: every placed exact library gate on 1, 2 and 3 qubits ({len(singles)} on 3 qubits), added by "
+                         "name and as an object of every exported gate class that builds it, all paths")
+        # every ordered pair of objects of the partial(_OneControlledGate) classes (equal .name, equal arg_value) on 2 qubits
+        pobj = partial_class_objects(2)
+        self._exact_batch(ctx, res, [(2, [a, b], [], ["pair", "N=2", "same-name-objects"], None) for a in pobj for b in pobj])
+        res.notes.append(f"exhaustive: every ordered pair of placed objects of the classes CX CY CS CT CRX CRY CRZ on 2 qubits "
+                         f"({len(pobj) ** 2} pairs; the objects share .name and arg_value), all paths")
         ctx.log(f"  singles done at {time.time() - t0:.1f}s")
         # 2. every ordered pair of placed gates on 3 qubits (thorough), sampled (quick)
         light = placed_gates(3, rot_angles=False)
-        pair_paths = {"ket", "dm", "unitary", "prod_ltr", "compact", "ket_steps"}
+        mixed = placed_gates(3, rot_angles=False, objects=True)
+        pair_paths = {"ket", "dm", "unitary", "prod_ltr", "compact", "ket_steps", "ket2nd"}
         if ctx.thorough:
             pairs = [(a, b) for a in light for b in light]
-            res.notes.append(f"exhaustive: every ordered pair of placed exact library gates on 3 qubits ({len(pairs)} pairs), "
-                             "paths ket/steps/dm/unitary/product/compact")
+            pairs += [(rng.choice(mixed), rng.choice(mixed)) for _ in range(4000)]
+            res.notes.append(f"exhaustive: every ordered pair of placed exact library gates (by name) on 3 qubits ({len(light) ** 2} "
+                             "pairs) + 4000 sampled pairs of gates by name / class objects, paths ket/steps/dm/unitary/product/compact")
         else:
-            pairs = [(rng.choice(light), rng.choice(light)) for _ in range(400)]
-            res.notes.append("ordered pairs of placed gates on 3 qubits: 400 sampled (exhaustive in the thorough tier)")
+            pairs = [(rng.choice(mixed), rng.choice(mixed)) for _ in range(400)]
+            res.notes.append("ordered pairs of placed gates (by name / class objects) on 3 qubits: 400 sampled "
+                             "(by-name pairs exhaustive in the thorough tier)")
         self._exact_batch(ctx, res, [(3, [a, b], [], ["pair", "N=3"], pair_paths) for a, b in pairs],
                           oracle_every=(8 if ctx.thorough else 1))
         res.exhaustive = True
@@ -970,7 +1078,7 @@ class C01(PropertyCheck):
             L = rng.randint(0, 8) if N < 6 else rng.randint(1, 4)
             ugs = random_user_table(rng) if rng.random() < 0.45 else []
             gates = random_gate_list(rng, N, L, ugs)
-            paths = None if N <= 4 else {"ket", "ket_steps", "dm", "unitary", "prod_ltr", "compact", "props0", "dmket"}
+            paths = None if N <= 4 else {"ket", "ket2nd", "ket_steps", "dm", "unitary", "prod_ltr", "compact", "props0", "dmket"}
             if N == 6:
                 paths = {"ket", "ket_steps", "dm", "unitary", "compact"}
             self._exact_case(ctx, res, N, gates, ugs, ["random", f"N={N}", f"len={len(gates)}", "ug" if ugs else "noug"],
@@ -1040,6 +1148,24 @@ class C01(PropertyCheck):
                 warnings.simplefilter("ignore")
                 return CircuitSimulator(qc, precompute_unitary=True).run(qket).get_final_states(0).full().ravel()
 
+        def second():
+            sim = CircuitSimulator(qc)
+            sim.run(qutip.Qobj(psi[::-1].reshape(-1, 1).copy(), dims=[[2] * N, [1] * N]))
+            return sim.run(qket).get_final_states(0).full().ravel()
+
+        def changed():
+            # histories: the simulator holds the circuit, not a copy of its matrices; what it applies is what the
+            # circuit says at the time of the run
+            qh = build_circuit(N, gates, ugs)
+            sim = CircuitSimulator(qh)
+            sim.run(qket)
+            qh.gates.reverse()
+            ugs2 = [UG(u.name, u.kind, u.m, [list(r) for r in zip(*u.mat)] if u.mat else u.mat) for u in ugs]
+            for u in ugs2:
+                qh.user_gates[u.name] = u.pyobj()
+            D2 = dense_product(N, gates[::-1], {u.name: u for u in ugs2})
+            return sim.run(qket).get_final_states(0).full().ravel(), D2 @ psi
+
         def compact():
             Us = qc.propagators(expand=False)
             inds = [g.qubits() if g.name != "GLOBALPHASE" else list(range(N)) for g in gates]
@@ -1065,6 +1191,8 @@ class C01(PropertyCheck):
                                                            .get_final_states(0).full(), D @ A)),
             ("compute_unitary", lambda: (qc.compute_unitary().full(), D)),
             ("CircuitSimulator(precompute_unitary=True).run(ket)", lambda: (pre(), D @ psi)),
+            ("second run on one CircuitSimulator (another ket first)", lambda: (second(), D @ psi)),
+            ("run on one CircuitSimulator after its circuit was changed (gate list reversed, user gates redefined)", changed),
         ]
         if gates:
             paths += [
@@ -1126,13 +1254,32 @@ class C01(PropertyCheck):
         gates = [random_float_gate(rng, N) if rng.random() < 0.5 else random_exact_gate(rng, N) for _ in range(rng.randint(1, 6))]
         return {"kind": "circuit", "N": N, "gates": [g.js() for g in gates], "ug": []}
 
+    @staticmethod
+    def _controlled_witnesses():
+        """pairs of generic ControlledGate objects (equal .name "ControlledGate", equal arg_value) that differ in
+        control_value or target gate, on 2 and 3 qubits"""
+        ws = []
+        mk = lambda name, t, c, cv: G(name, [t], c, cn=False, via="ControlledGate", cv=cv)
+        for a, b in [(("X", 1, [0], 1), ("X", 1, [0], 0)), (("Z", 0, [1], 0), ("Y", 1, [0], 1)),
+                     (("S", 1, [0], 1), ("T", 0, [1], 1)), (("SNOT", 1, [0], 0), ("SQRTNOT", 1, [0], 0))]:
+            ws.append({"kind": "circuit", "N": 2, "gates": [mk(*a).js(), mk(*b).js()], "ug": []})
+        for cv1 in range(4):
+            for cv2 in range(4):
+                ws.append({"kind": "circuit", "N": 3, "ug": [],
+                           "gates": [mk("X", 2, [0, 1], cv1).js(), mk("Y", 0, [2, 1], cv2).js()]})
+        return ws
+
     def oracle_search(self, ctx, budget_s):
         t0 = time.time()
         # systematic: every placed library gate on 1, 2 qubits; every parametric gate at the boundary / large
         # angles (each argument position); every placed library gate on 3 qubits (incl. 2pi and -5pi/2)
-        systematic = [{"kind": "circuit", "N": N, "gates": [g.js()], "ug": []} for N in (1, 2) for g in placed_gates(N)]
+        systematic = [{"kind": "circuit", "N": N, "gates": [g.js()], "ug": []} for N in (1, 2)
+                      for g in placed_gates(N, objects=True)]
+        pobj = partial_class_objects(2)
+        systematic += [{"kind": "circuit", "N": 2, "gates": [a.js(), b.js()], "ug": []} for a in pobj for b in pobj]
+        systematic += self._controlled_witnesses()
         systematic += angle_sweep()
-        systematic += [{"kind": "circuit", "N": 3, "gates": [g.js()], "ug": []} for g in placed_gates(3)]
+        systematic += [{"kind": "circuit", "N": 3, "gates": [g.js()], "ug": []} for g in placed_gates(3, objects=True)]
         for w in systematic:
             f, d = self.oracle_replay(ctx, w)
             if f:
@@ -1150,6 +1297,13 @@ class C01(PropertyCheck):
               {"kind": "compact", "N": 9, "gates": [G("X", [4], []).js()] + [G("IDLE", [q], []).js() for q in range(9) if q != 4]
                + [G("CNOT", [4], [8]).js()]}]
         ws.append({"kind": "circuit", "N": 2, "gates": [G("X", [1], []).js(), G("SNOT", [1], []).js()], "ug": []})
+        # objects of different classes with equal .name and arg_value in one circuit
+        ws.append({"kind": "circuit", "N": 2, "ug": [], "gates": [G("CY", [1], [0], via="CY").js(), G("CS", [0], [1], via="CS").js(),
+                                                                   G("CNOT", [1], [0], via="CX").js()]})
+        ws.append({"kind": "circuit", "N": 2, "ug": [], "gates": [G("CRX", [1], [0], val=0.7, via="CRX").js(),
+                                                                   G("CRY", [0], [1], val=0.7, via="CRY").js(),
+                                                                   G("CRZ", [1], [0], val=0.7, via="CRZ").js()]})
+        ws += self._controlled_witnesses()[:6]
         # every parametric library gate at 2pi, beyond -2pi and at 4pi against its documented matrix
         ws += angle_sweep([2 * math.pi, -2 * math.pi - 0.5, 4 * math.pi], all_positions=False)
         ws += [self._random_witness(ctx.rng) for _ in range(40)]
